@@ -341,6 +341,15 @@ class HashDomain(ExactCollections, Domain):
         return state.set("#imprecise", 1)
 
     def name_load(self, name, state, node=None):
+        if not state.has(name) and self.fn is not None and name in self.fn.module.assigns:
+            # a module-level constant (e.g. a table of command names)
+            from .model import fold, NotConst
+            from .colls import lift_value
+
+            try:
+                return lift_value(fold(self.fn.module.assigns[name], self.fn.module))
+            except NotConst:
+                return TOP
         return state.get(name, TOP)
 
     def attr_load(self, objval, node, state):
@@ -448,7 +457,7 @@ def batching_rows(prog, hc, r3, r4, tier="quick"):
     sides of them - the same scenario with the comparison taken at face value (three is below the threshold) plus a
     scenario with threshold + 1 keys on one server - provided that fits the exact collections (<= 30 keys)."""
     from .colls import GenV, new_object
-    from .rules_C05 import Val
+    from .rules_C05 import Val, has_top
 
     ALL = [Opaque("K1"), Opaque("K2"), Opaque("K3")]
     routes = [
@@ -504,6 +513,8 @@ def batching_rows(prog, hc, r3, r4, tier="quick"):
             runs = s.get("#runs", ())
             val = deref(v, s)
             if want_runs is not None and not _same_runs(runs, want_runs):
+                if any(has_top(x) for n_, a_, k_ in runs for x in a_):
+                    vague = True  # a piece of a runner call is unknown to the analysis: no verdict from it
                 problems.append("the safe runner is called as %s; expected %s" % (_runs_txt(runs), _runs_txt(want_runs[1]) + " (or the same deletions batched per server)" if isinstance(want_runs, tuple) else _runs_txt(want_runs)))
             if want_value is not None and not _same_value(val, want_value):
                 problems.append("it returns %s; expected %s" % (_d(val), _d(want_value)))
@@ -751,22 +762,19 @@ def run(chk):
     r3 = chk.rule("C12.R3", "batching: each key is inserted exactly once, under the inner key, into the batch of the server its own routing call returned; skipped only when no server is left; each batch dispatched once to that server's client")
     r4 = chk.rule("C12.R4", "merge: get_many returns the union of the per-server answers, set_many concatenates the failures, delete_many visits each key once")
     batching_rows(prog, hc, r3, r4, tier=chk.tier)
-    # add_server keeps clients[_make_client_key(s)].server == s
+    # add_server keeps clients[<node name of s>].server == s, decided by interpretation (whatever helper does the writing)
     add = prog.method(hc, "add_server")
-    ctor = [c for c in walk_no_nested(add.node) if isinstance(c, ast.Call) and any(k.arg is None and is_self_attr(k.value, "default_kwargs") for k in c.keywords)]
-    okc = len(ctor) == 1 and ctor[0].args and isinstance(ctor[0].args[0], ast.Name)
-    if okc:
-        srv = ctor[0].args[0].id
-        mk = [n for n in walk_no_nested(add.node) if isinstance(n, ast.Assign) and isinstance(n.value, ast.Call) and call_name(n.value) == "self._make_client_key" and isinstance(n.value.args[0], ast.Name) and n.value.args[0].id == srv]
-        st = [n for n in walk_no_nested(add.node) if isinstance(n, ast.Assign) and isinstance(n.targets[0], ast.Subscript) and is_self_attr(n.targets[0].value, "clients")]
-        okc = len(mk) == 1 and len(st) == 1 and isinstance(st[0].targets[0].slice, ast.Name) and st[0].targets[0].slice.id == mk[0].targets[0].id and isinstance(st[0].value, ast.Name) and isinstance(getattr(ctor[0], "_parent", None), ast.Assign) and ctor[0]._parent.targets[0].id == st[0].value.id
-    r3.expect(okc, "add_server registers the client built for `server` under _make_client_key(server)", "HashClient.add_server:registration", "add_server does not register the client it built for a server under that server's node name", fn=add, node=add.node)
+    from . import failhist
+
+    failhist.registration_rows(prog, r3)
+    # the client table belongs to the hash clients: nobody else stores into it
     writers = []
     for f in prog.all_functions():
         for n in walk_no_nested(f.node):
             if isinstance(n, ast.Assign) and any(isinstance(t, ast.Subscript) and isinstance(t.value, ast.Attribute) and t.value.attr == "clients" for t in n.targets):
-                writers.append(f.qualname)
-    r3.expect(sorted(set(writers)) == ["HashClient.add_server"], "only add_server stores into .clients", "HashClient:clients-writers", ".clients entries are written by %s" % sorted(set(writers)), fn=add)
+                writers.append(f)
+    foreign = sorted({f.qualname for f in writers if f.cls is None or f.cls.name not in ("HashClient", "AWSElastiCacheHashClient")})
+    r3.expect(writers and not foreign, "only the hash clients store into .clients", "HashClient:clients-writers", ".clients entries are written by %s" % (foreign or "nobody"), fn=add)
     chk.assume("memcached answers a multi-key fetch with exactly the items it holds (server model), so per-server answers are disjoint")
 
 
